@@ -16,6 +16,8 @@ def target_kinds(rng):
         "scalar": N_int(rng.choice(["uint8", "int16", "uint32", "int64", "uint24", "int128"])),
         "float": N_float(rng.choice(["float", "double"])),
         "char": N_char(),
+        # a wide character is a scalar like any other: one code unit, not a string
+        "wchar": gen.N_wchar(),
         "struct": inner,
         "ptrptr": N_ptr(N_int(rng.choice(["uint8", "uint16"]))),
     }
@@ -435,7 +437,9 @@ def context_targets(ctx, rng):
     text = ("typedef uint16 items_t[count];\n"
             "struct first { uint8 count; items_t *items; uint8 end; };\n"
             "struct last { items_t *items; uint8 count; uint8 end; };\n"
-            "struct both { items_t *items[2]; uint8 count; uint8 end; };\n")
+            "struct both { items_t *items[2]; uint8 count; uint8 end; };\n"
+            "struct folded { struct { uint8 count; }; items_t *items; uint8 end; };\n"
+            "struct deep { struct { uint8 k; struct { uint8 count; }; }; items_t *items; uint8 end; };\n")
     for ptr in PTR_TYPES:
         width = ALL_INTS[ptr][0]
         for endian in "<>":
@@ -448,13 +452,14 @@ def context_targets(ctx, rng):
                 except Exception as e:  # noqa: BLE001
                     ctx.violation("load", f"context-target:load-fails:{type(e).__name__}", dict(detail, error=lib.exc_sig(e)))
                     continue
-                for name in ("first", "last", "both"):
+                for name in ("first", "last", "both", "folded", "deep"):
                     count = rng.randint(0, 5)
                     vals = [[rng.randrange(1 << 16) for _ in range(6)] for _ in range(2)]
                     a1, a2 = 0x30, 0x40
                     pt = [_enc(a1, width, endian), _enc(a2, width, endian)]
                     head = {"first": bytes([count]) + pt[0] + b"\x99", "last": pt[0] + bytes([count]) + b"\x99",
-                            "both": pt[0] + pt[1] + bytes([count]) + b"\x99"}[name]
+                            "both": pt[0] + pt[1] + bytes([count]) + b"\x99", "folded": bytes([count]) + pt[0] + b"\x99",
+                            "deep": bytes([0x77, count]) + pt[0] + b"\x99"}[name]
                     buf = head.ljust(a1, b"\xcc") + b"".join(_enc(v, 2, endian) for v in vals[0])
                     buf = buf.ljust(a2, b"\xcc") + b"".join(_enc(v, 2, endian) for v in vals[1])
                     st = io.BytesIO(buf)
@@ -536,6 +541,35 @@ def union_pointers(ctx):
                               dict(det, got=repr(got), want="[0x97, 0x97, 0x97, 0xbb, 0xbb, True] (absolute offsets 2 and 9 of the stream)"))
             else:
                 ctx.event("union_pointers_absolute")
+            # a union that did not come from a stream -- built from values, default-constructed and then assigned, or
+            # a member of such a structure -- has pointers without a stream: the dedicated error, never its own bytes
+            ctx.evaluation(("union-pointers-without-stream", compiled, endian))
+            ctx.cell("union-pointers:built-from-values")
+            try:
+                from dissect.cstruct.exceptions import NullPointerDereference
+
+                a = cs.u(raw=0x01010101)
+                b = cs.u()
+                b.p = 1
+                c = cs.outer()
+                c.un.raw = 0x02020202
+                d = cs.outer(pad=[1, 2, 3, 4], un=cs.u(raw=0x01010101))
+                outs = []
+                for ptr in (a.p, a.s.q, a.arr[1], b.p, b.s.q, c.un.p, c.un.arr[0], d.un.p):
+                    try:
+                        outs.append(("value", repr(ptr.dereference())))
+                    except NullPointerDereference:
+                        outs.append("null-dereference-error")
+                    except Exception as e:  # noqa: BLE001
+                        outs.append(type(e).__name__)
+            except Exception as e:  # noqa: BLE001
+                ctx.violation("union-pointers", f"pointer-in-union-raises:{type(e).__name__}", dict(det, error=lib.exc_sig(e)))
+                continue
+            if outs != ["null-dereference-error"] * len(outs):
+                ctx.violation("union-pointers", "pointer-of-a-union-built-from-values-dereferences-the-unions-own-bytes",
+                              dict(det, got=repr(outs)))
+            else:
+                ctx.event("union_pointers_without_stream")
 
 
 def linked_structures(ctx):
@@ -735,7 +769,7 @@ def run(ctx):
         reconfigured_width(ctx, ctx.rng("reconfigured"))
     if ctx.shard % 8 == 2:
         context_targets(ctx, ctx.rng("context-targets"))
-    combos = [(k, p, e, a, c) for k in ("scalar", "float", "char", "struct", "ptrptr") for p in PTR_TYPES
+    combos = [(k, p, e, a, c) for k in ("scalar", "float", "char", "wchar", "struct", "ptrptr") for p in PTR_TYPES
               for e in ("<", ">") for a in (False, True) for c in (True, False)]
     reps = 1 if not ctx.thorough else 12
     jobs = [(c, r) for c in combos for r in range(reps)]
@@ -745,7 +779,7 @@ def run(ctx):
         check(ctx, ctx.rng("combo", kind, ptr, e, a, c, rep), kind, ptr, e, a, c)
     ctx.sample({"definition": "struct T { uint8 lead; <target> *p; uint16 after; <target> *arr[2]; uint8 tail; }",
                 "stream": "[random prefix][structure][encoded targets at the stored absolute addresses]"})
-    ctx.sample({"pointer_types": PTR_TYPES, "targets": ["scalar", "float", "char", "struct", "ptrptr"]})
+    ctx.sample({"pointer_types": PTR_TYPES, "targets": ["scalar", "float", "char", "wchar", "struct", "ptrptr"]})
 
 
 def replay(ctx, detail):
